@@ -3,6 +3,8 @@ package main
 // Block scheduling, merging, loops, instruction semantics.
 
 import (
+	"os"
+	"go/ast"
 	"fmt"
 	"go/constant"
 	"go/token"
@@ -311,9 +313,206 @@ func (fe *FuncEnc) loopContract(f *Frame, li *loopInfo) *LoopContract {
 		con = fe.eng.contracts[n]
 	}
 	if con == nil {
+		// a helper without contract, inlined: its loops take the loop clauses of the top contract that no loop of the
+		// top function matches any more (the loop was moved out of it)
+		if f.borrow != nil && fe.con != nil {
+			key := fmt.Sprintf("%s:%d", fe.eng.fnames[f.fn], li.ord)
+			if fe.borrowed == nil {
+				fe.borrowed = map[string]int{}
+			}
+			ord, ok := fe.borrowed[key]
+			if !ok {
+				if len(fe.orphanLoops) == 0 {
+					return nil
+				}
+				ord = fe.orphanLoops[0]
+				fe.orphanLoops = fe.orphanLoops[1:]
+				fe.borrowed[key] = ord
+				fe.assumes[fmt.Sprintf("loop %d of the contract of %s is taken to be loop %d of the helper %s (the loop was moved into a function without contract)", ord, fe.name, li.ord, fe.eng.fnames[f.fn])] = true
+			}
+			return fe.con.Loops[ord]
+		}
 		return nil
 	}
-	return con.Loops[li.ord]
+	return con.Loops[fe.loopOrd(f.fn, con, li.ord)]
+}
+
+// loopOrd maps the ordinal of a loop of the code to the ordinal of its clauses in the contract.  Identity while the two
+// agree in number; otherwise an order-preserving matching by the names the clauses mention and the loop carries.
+func (fe *FuncEnc) loopOrd(fn *ssa.Function, con *Contract, ord int) int {
+	ci := analyzeCFG(fn)
+	if len(ci.loops) == len(con.Loops) {
+		return ord
+	}
+	if fe.loopMaps == nil {
+		fe.loopMaps = map[*ssa.Function]map[int]int{}
+	}
+	m, ok := fe.loopMaps[fn]
+	if !ok {
+		m = fe.matchLoops(fn, con, ci)
+		fe.loopMaps[fn] = m
+	}
+	if c, ok := m[ord]; ok {
+		return c
+	}
+	return -1
+}
+
+func (fe *FuncEnc) matchLoops(fn *ssa.Function, con *Contract, ci *cfgInfo) map[int]int {
+	// code loops by ordinal, with the names they carry or define
+	var code []*loopInfo
+	for _, li := range ci.loops {
+		code = append(code, li)
+	}
+	sort.Slice(code, func(i, j int) bool { return code[i].ord < code[j].ord })
+	codeNames := make([]map[string]bool, len(code))
+	for i, li := range code {
+		ns := map[string]bool{}
+		for b := range li.blocks {
+			for _, in := range b.Instrs {
+				switch x := in.(type) {
+				case *ssa.Phi:
+					if x.Comment != "" {
+						ns[x.Comment] = true
+					}
+				case *ssa.DebugRef:
+					if id, ok := x.Expr.(*ast.Ident); ok {
+						ns[id.Name] = true
+					}
+				}
+			}
+		}
+		codeNames[i] = ns
+	}
+	var cords []int
+	for k := range con.Loops {
+		cords = append(cords, k)
+	}
+	sort.Ints(cords)
+	conNames := make([]map[string]bool, len(cords))
+	for j, k := range cords {
+		ns := map[string]bool{}
+		for _, cl := range con.Loops[k].Invariants {
+			for _, w := range identRe.FindAllString(cl.Text, -1) {
+				ns[w] = true
+			}
+		}
+		conNames[j] = ns
+	}
+	// a loop inside the type-switch case for T matches clauses that speak about `let x = expr.(*T)`
+	caseOf := make([]string, len(code))
+	for i, li := range code {
+		for _, b := range fn.Blocks {
+			if len(b.Preds) != 1 || !(b == li.header || b.Dominates(li.header)) {
+				continue
+			}
+			pb := b.Preds[0]
+			if len(pb.Instrs) == 0 || pb.Succs[0] != b {
+				continue
+			}
+			iff, ok := pb.Instrs[len(pb.Instrs)-1].(*ssa.If)
+			if !ok {
+				continue
+			}
+			ex, ok := iff.Cond.(*ssa.Extract)
+			if !ok || ex.Index != 1 {
+				continue
+			}
+			if ta, ok := ex.Tuple.(*ssa.TypeAssert); ok && ta.CommaOk {
+				if _, isParam := ta.X.(*ssa.Parameter); isParam {
+					caseOf[i] = types.TypeString(ta.AssertedType, func(p *types.Package) string { return p.Name() })
+				}
+			}
+		}
+	}
+	conCase := make([]map[string]bool, len(cords))
+	for j := range cords {
+		conCase[j] = map[string]bool{}
+		for w := range conNames[j] {
+			if ex, ok := con.Lets[w]; ok {
+				if ta, ok := ex.(*ast.TypeAssertExpr); ok {
+					conCase[j][types.ExprString(ta.Type)] = true
+				}
+			}
+		}
+	}
+	// names weigh by how specific they are: a name every loop clause mentions (env, signal) says nothing, the list a
+	// loop builds says nearly everything; parameters of the function never count
+	df := map[string]int{}
+	for _, ns := range conNames {
+		for w := range ns {
+			df[w]++
+		}
+	}
+	params := map[string]bool{"iter": true}
+	for _, p := range fn.Params {
+		params[p.Name()] = true
+	}
+	score := func(i, j int) int {
+		n := 0
+		for w := range codeNames[i] {
+			if conNames[j][w] && !params[w] {
+				n += 1000 / (df[w] * df[w])
+			}
+		}
+		if caseOf[i] != "" && conCase[j][caseOf[i]] {
+			n += 5000
+		}
+		return n
+	}
+	// order-preserving alignment of maximal total score
+	n, mm := len(code), len(cords)
+	best := make([][]int, n+1)
+	for i := range best {
+		best[i] = make([]int, mm+1)
+	}
+	for i := n - 1; i >= 0; i-- {
+		for j := mm - 1; j >= 0; j-- {
+			b := best[i+1][j]
+			if best[i][j+1] > b {
+				b = best[i][j+1]
+			}
+			if sc := score(i, j); sc > 0 && sc+best[i+1][j+1] > b {
+				b = sc + best[i+1][j+1]
+			}
+			best[i][j] = b
+		}
+	}
+	out := map[int]int{}
+	used := map[int]bool{}
+	i, j := 0, 0
+	for i < n && j < mm {
+		if sc := score(i, j); sc > 0 && best[i][j] == sc+best[i+1][j+1] {
+			out[code[i].ord] = cords[j]
+			used[cords[j]] = true
+			i++
+			j++
+		} else if best[i][j] == best[i+1][j] {
+			i++
+		} else {
+			j++
+		}
+	}
+	if os.Getenv("VERIF_DEBUG_LOOPS") != "" {
+		fmt.Fprintf(os.Stderr, "loop matching %s: %v\n", fe.eng.fnames[fn], out)
+	}
+	if fn == fe.fn {
+		fe.orphanLoops = nil
+		for _, k := range cords {
+			if !used[k] {
+				fe.orphanLoops = append(fe.orphanLoops, k)
+			}
+		}
+	}
+	return out
+}
+
+// entryFor: the state `old(...)` refers to in loop clauses of frame f (the lending frame's entry for borrowed clauses).
+func (fe *FuncEnc) entryFor(f *Frame) *State {
+	if f.borrow != nil && fe.eng.contracts[fe.eng.fnames[f.fn]] == nil {
+		return f.borrow.entry
+	}
+	return f.entry
 }
 
 // loopNames binds source-level names visible in loop contracts to terms.
@@ -401,7 +600,7 @@ func (fe *FuncEnc) enterLoop(f *Frame, li *loopInfo, reach Term, st *State) (Ter
 	if lc != nil {
 		names := fe.loopNames(f, li, func(p *ssa.Phi) Term { return entryVals[p] }, st, tInt(0))
 		for _, inv := range lc.Invariants {
-			t := fe.evalClause(f, inv, st, f.entry, names, nil, b2pos(h, pos))
+			t := fe.evalClause(f, inv, st, fe.entryFor(f), names, nil, b2pos(h, pos))
 			fe.emit("inv.entry", fmt.Sprintf("loop%d.%s", li.ord, inv.Label), reach, t, inv.Text, pos)
 		}
 	}
@@ -483,12 +682,12 @@ func (fe *FuncEnc) enterLoop(f *Frame, li *loopInfo, reach Term, st *State) (Ter
 	names := fe.loopNames(f, li, func(p *ssa.Phi) Term { return f.vals[p] }, st, gi)
 	if lc != nil {
 		for _, inv := range lc.Invariants {
-			t := fe.evalClause(f, inv, st, f.entry, names, nil, b2pos(h, pos))
+			t := fe.evalClause(f, inv, st, fe.entryFor(f), names, nil, b2pos(h, pos))
 			fe.assume(reach, t)
 		}
 		var v0 []Term
 		for _, d := range lc.Decreases {
-			v0 = append(v0, fe.define("variant", fe.evalClause(f, d, st, f.entry, names, nil, pos)))
+			v0 = append(v0, fe.define("variant", fe.evalClause(f, d, st, fe.entryFor(f), names, nil, pos)))
 		}
 		f.headerV0[h] = v0
 	}
@@ -537,11 +736,11 @@ func (fe *FuncEnc) backEdge(f *Frame, li *loopInfo, from *ssa.BasicBlock, cond T
 	}
 	names := fe.loopNames(f, li, phiVal, st, gnext)
 	for _, inv := range lc.Invariants {
-		t := fe.evalClause(f, inv, st, f.entry, names, nil, pos)
+		t := fe.evalClause(f, inv, st, fe.entryFor(f), names, nil, pos)
 		fe.emit("inv.step", fmt.Sprintf("loop%d.%s", li.ord, inv.Label), cond, t, inv.Text, pos)
 	}
 	for i, d := range lc.Decreases {
-		v1 := fe.evalClause(f, d, st, f.entry, names, nil, pos)
+		v1 := fe.evalClause(f, d, st, fe.entryFor(f), names, nil, pos)
 		v0 := f.headerV0[h][i]
 		if i == 0 {
 			fe.emit("dec", fmt.Sprintf("loop%d", li.ord), cond, tAnd(tLe(tInt(0), v0), tLt(v1, v0)), d.Text, pos)
